@@ -26,7 +26,14 @@ unsafe impl<T: ?Sized, R: RawRwLock> RawLock for RwLock<T, R> {
 
 		// if the closure unwraps, then the mutex will be killed
 		let this = AssertUnwindSafe(self);
-		handle_unwind(|| this.raw.lock_exclusive(), || self.poison())
+		handle_unwind(|| this.raw.lock_exclusive(), || self.poison());
+
+		// the lock may have been killed while this thread was waiting for it
+		if self.poison.is_poisoned() {
+			// safety: we just locked it
+			self.raw.unlock_exclusive();
+			panic!("The read-write lock has been killed");
+		}
 	}
 
 	unsafe fn raw_try_write(&self) -> bool {
@@ -53,7 +60,14 @@ unsafe impl<T: ?Sized, R: RawRwLock> RawLock for RwLock<T, R> {
 
 		// if the closure unwraps, then the mutex will be killed
 		let this = AssertUnwindSafe(self);
-		handle_unwind(|| this.raw.lock_shared(), || self.poison())
+		handle_unwind(|| this.raw.lock_shared(), || self.poison());
+
+		// the lock may have been killed while this thread was waiting for it
+		if self.poison.is_poisoned() {
+			// safety: we just locked it
+			self.raw.unlock_shared();
+			panic!("The read-write lock has been killed");
+		}
 	}
 
 	unsafe fn raw_try_read(&self) -> bool {
